@@ -583,3 +583,4 @@ theorem Snk.flush_faultFree {k k' : Snk} {r : Bool} (hb : k.faultFree) (h : k.fl
   exact ⟨(Snk.flush_benign hb.benign h).1, Snk.faultFree_of_suffix hb ⟨[], by rw [hws]; rfl⟩ hfs⟩
 
 end Kestrel
+
